@@ -72,6 +72,18 @@ func openWatched(path string, mode string) (*updog.Index, string) {
 	}
 }
 
+// withTimeout runs f; " CLOSE-HANG" if it does not return in time (the goroutine is abandoned).
+func withTimeout(d time.Duration, f func() string) string {
+	ch := make(chan string, 1)
+	go func() { ch <- f() }()
+	select {
+	case r := <-ch:
+		return r
+	case <-time.After(d):
+		return " CLOSE-HANG"
+	}
+}
+
 // released reports whether nobody holds a lock on the file: a non-blocking exclusive flock
 // on a read-only descriptor (does not modify the file, unlike opening it with bbolt).
 func released(path string) bool {
@@ -380,13 +392,23 @@ func damageCase(dir, cid string, base string, rows []map[string]string, defects 
 			}
 		}
 		res += " " + strings.ReplaceAll(execQuery(ix, &updog.Query{Expr: &updog.ExprEqual{Column: c0, Value: v0}}), " ", "_")
-		var cerr1, cerr2 error
-		if _, ok := guard(func() { cerr1 = ix.Close(); cerr2 = ix.Close() }); !ok {
-			res += " CLOSE-PANIC"
-		} else if cerr2 != nil {
-			res += " CLOSE2-ERR"
-		}
-		_ = cerr1
+		// Close may be called more than once: four times, under a watchdog
+		closed := withTimeout(20*time.Second, func() string {
+			var cerr2 error
+			if _, ok := guard(func() {
+				ix.Close()
+				cerr2 = ix.Close()
+				ix.Close()
+				ix.Close()
+			}); !ok {
+				return " CLOSE-PANIC"
+			}
+			if cerr2 != nil {
+				return " CLOSE2-ERR"
+			}
+			return ""
+		})
+		res += closed
 	}
 	rel := "RELEASED"
 	if oc != "HANG" && !released(path) {
@@ -548,6 +570,79 @@ func clobberRace(dir, cid string, rows []map[string]string) {
 	pr("CLOBBERRACE %s %s\n", cid, verdict)
 }
 
+// doubleFlush: the same writer flushed twice to its path: the second Flush finds the file and
+// must fail without touching it.
+func doubleFlush(dir, cid string, rows []map[string]string) {
+	path := filepath.Join(dir, cid+".twice")
+	w := updog.NewIndexWriter(path)
+	for _, r := range rows {
+		w.AddRow(r)
+	}
+	res := "OK"
+	if err := w.Flush(); err != nil {
+		pr("DOUBLEFLUSH %s FIRST-FLUSH-FAILED UNCHANGED\n", cid)
+		return
+	}
+	before := fileHash(path)
+	w.AddRow(map[string]string{"extra": "row"})
+	var err2 error
+	if _, ok := guard(func() { err2 = w.Flush() }); !ok {
+		res = "PANIC"
+	} else if err2 != nil {
+		res = "ERR"
+	}
+	same := "UNCHANGED"
+	if fileHash(path) != before {
+		same = "MODIFIED"
+	}
+	pr("DOUBLEFLUSH %s %s %s\n", cid, res, same)
+	os.Remove(path)
+}
+
+// readOnlyDBCase: OpenIndexFromBoltDatabase on a caller-supplied handle that was opened
+// read-write (bbolt's default): open with options, probe, close — the file must not change.
+func readOnlyDBCase(dir, cid, valid string, rows []map[string]string, mode string) {
+	path := filepath.Join(dir, cid+".rwdb")
+	copyFile(valid, path)
+	// what opening and closing the handle alone does to the file is bbolt's business
+	if db, err := bbolt.Open(path, 0644, nil); err == nil {
+		db.Close()
+	}
+	before := fileHash(path)
+	res := "OK"
+	_, ok := guard(func() {
+		db, err := bbolt.Open(path, 0644, nil)
+		if err != nil {
+			res = "BOLT-OPEN-ERR"
+			return
+		}
+		var opts []updog.IndexOption
+		if strings.Contains(mode, "preload") {
+			opts = append(opts, updog.WithPreloadedData())
+		}
+		if strings.Contains(mode, "cached") {
+			opts = append(opts, updog.WithCache(updog.NewLRUCache(1<<20)))
+		}
+		ix, err := updog.OpenIndexFromBoltDatabase(db, opts...)
+		if err != nil {
+			res = "OPEN-ERR"
+			db.Close()
+			return
+		}
+		probeAnswers(ix, rows, 40)
+		ix.Close()
+	})
+	if !ok {
+		res = "PANIC"
+	}
+	same := "UNCHANGED"
+	if fileHash(path) != before {
+		same = "MODIFIED"
+	}
+	pr("READONLYDB %s %s %s\n", cid, res, same)
+	os.Remove(path)
+}
+
 func readOnlyCase(dir, cid, valid string, rows []map[string]string, mode string, seed int64) {
 	path := filepath.Join(dir, cid+".ro")
 	copyFile(valid, path)
@@ -625,6 +720,12 @@ func filesCmd(args []string) {
 		case "CLOBBERRACE":
 			cid, ds := t.next(), t.next()
 			clobberRace(dir, cid, datasets[ds].rows)
+		case "DOUBLEFLUSH":
+			cid, ds := t.next(), t.next()
+			doubleFlush(dir, cid, datasets[ds].rows)
+		case "READONLYDB":
+			cid, ds, mode := t.next(), t.next(), t.next()
+			readOnlyDBCase(dir, cid, getValid(ds), datasets[ds].rows, mode)
 		case "READONLY":
 			cid, ds, mode := t.next(), t.next(), t.next()
 			readOnlyCase(dir, cid, getValid(ds), datasets[ds].rows, mode, int64(t.int()))
